@@ -3,6 +3,7 @@ package drivers
 import (
 	"bytes"
 	"crypto"
+	"crypto/x509"
 	"crypto/x509/pkix"
 	"encoding/asn1"
 	"encoding/json"
@@ -546,6 +547,67 @@ func c17RefreshFootprint(chk *fw.Check, n int, dir string) int64 {
 	return g
 }
 
+// c17ProvisionWorker runs in a fresh process: a validator with disk storage and one configured crl_file of n entries
+// is provisioned (the list is imported while Provision runs). Reported: growth of the heap obtained from the OS across
+// Provision - a high-water mark, so whatever the import holds on to while it runs shows, also what it lets go of
+// before it returns.
+func c17ProvisionWorker(path string, n int) int {
+	p := world.Std()
+	var m0, m1 runtime.MemStats
+	verdict, errs := "", ""
+	serial := func(i int) *big.Int {
+		return new(big.Int).Add(new(big.Int).Lsh(big.NewInt(1), 70), big.NewInt(int64(i)))
+	}
+	seqWorld(func() {
+		w := NewCW(CWOpt{Disk: true, SigMode: config.SignatureValidationModeVerify, Files: []string{path}, Trusted: []*x509.Certificate{p.CA.Cert}})
+		defer os.RemoveAll(w.Dir)
+		runtime.GC()
+		runtime.ReadMemStats(&m0)
+		if err := w.Provision(); err != nil {
+			errs = err.Error()
+			return
+		}
+		runtime.ReadMemStats(&m1)
+		vsched.Drain()
+		last := world.Leaf(p.CA, serial(n-1), nil, nil)
+		verdict = w.Lookup(last, world.Chain(last, p.CA, p.Root)).String()
+		w.Chk.Cleanup()
+	})
+	b, _ := json.Marshal(map[string]interface{}{"heap_sys_before": m0.HeapSys, "heap_sys_after": m1.HeapSys, "verdict_last_entry": verdict, "err": errs})
+	fmt.Println(string(b))
+	return 0
+}
+
+// c17ProvisionFootprint: the import of a configured crl_file of n entries while Provision runs, in a fresh process.
+func c17ProvisionFootprint(chk *fw.Check, n int, dir string) int64 {
+	path := filepath.Join(dir, "configured.crl")
+	os.WriteFile(path, c17Doc(n, false), 0600)
+	defer os.Remove(path)
+	cmd := exec.Command(os.Args[0], "C17", "--tier", "worker", "--", "provisionfootprint", path, fmt.Sprint(n))
+	cmd.Env = c17WorkerEnv()
+	out, err := cmd.Output()
+	var r struct {
+		Before  int64  `json:"heap_sys_before"`
+		After   int64  `json:"heap_sys_after"`
+		Verdict string `json:"verdict_last_entry"`
+		Err     string `json:"err"`
+	}
+	lines := strings.Split(strings.TrimSpace(string(out)), "\n")
+	if err != nil || json.Unmarshal([]byte(lines[len(lines)-1]), &r) != nil {
+		chk.Violation("C17|footprint-worker-died|provision", fmt.Sprintf("Provision with a configured %d-entry crl_file in a fresh process failed: %v %s", n, err, firstLines(string(out), 3)), nil)
+		return -1
+	}
+	if r.Err != "" || r.Verdict != "REVOKED" {
+		chk.Violation("C17|disk-path-failed|provision", fmt.Sprintf("Provision with a configured %d-entry crl_file: %s; last entry => %s", n, r.Err, r.Verdict), nil)
+		return -1
+	}
+	g := r.After - r.Before
+	if g > c17RefreshBound {
+		chk.Violation("C17|provision-footprint-grows", fmt.Sprintf("Provision of a disk-backed validator with a configured %d-entry crl_file: the heap obtained from the OS grew by %d bytes while the list was imported (bound %d independent of the size)", n, g, c17RefreshBound), map[string]interface{}{"n": n})
+	}
+	return g
+}
+
 const c17RefreshBound = 96 * mib
 
 var c17LookupGrowth []int64
@@ -641,6 +703,10 @@ func RunC17(tier string, args []string) int {
 	if len(args) > 1 && args[0] == "footprint" {
 		return c17FootprintWorker(args[1])
 	}
+	if len(args) > 2 && args[0] == "provisionfootprint" {
+		n, _ := strconv.Atoi(args[2])
+		return c17ProvisionWorker(args[1], n)
+	}
 	if len(args) > 2 && args[0] == "refreshfootprint" {
 		n, _ := strconv.Atoi(args[2])
 		return c17RefreshWorker(args[1], n)
@@ -725,6 +791,15 @@ func RunC17(tier string, args []string) int {
 	if refreshSmall >= 0 && refreshGrowth-refreshSmall > 16*mib {
 		chk.Violation("C17|refresh-footprint-grows", fmt.Sprintf("refresh of a disk-backed validator: heap obtained from the OS grows by %d bytes for %d entries and by %d bytes for %d entries (difference bound 16 MiB)", refreshSmall, fpN/4, refreshGrowth, fpN), nil)
 	}
+	// the import of a configured crl_file while Provision runs, two sizes
+	provSmall := c17ProvisionFootprint(chk, fpN/16, dir)
+	provGrowth := c17ProvisionFootprint(chk, fpN/4, dir)
+	if provSmall >= 0 && provGrowth-provSmall > 48*mib {
+		chk.Violation("C17|provision-footprint-grows", fmt.Sprintf("Provision of a disk-backed validator with a configured crl_file: heap obtained from the OS grows by %d bytes for %d entries and by %d bytes for %d entries (difference bound 48 MiB)", provSmall, fpN/16, provGrowth, fpN/4), nil)
+	}
+	evals += 2
+	distinct += 2
+	fmt.Printf("  provision footprint: %d entries +%d KiB, %d entries +%d KiB\n", fpN/16, provSmall>>10, fpN/4, provGrowth>>10)
 	// everything outside the per-entry loop (download, staging set-up, swap, re-open) allocates an amount which does
 	// not depend on the size: per kind of interval between two effect points, large minus small <= 12 MiB
 	var stepNotes []string
